@@ -38,6 +38,9 @@ type GParetoDistribution struct {
 /* -------------------------------------------------------------------------- */
 
 func NewGParetoDistribution(mu, sigma, xi Scalar) (*GParetoDistribution, error) {
+  if math.IsNaN(mu.GetFloat64()) || math.IsNaN(sigma.GetFloat64()) || math.IsNaN(xi.GetFloat64()) {
+    return nil, fmt.Errorf("invalid parameters")
+  }
   if sigma.GetFloat64() <= 0.0 {
     return nil, fmt.Errorf("invalid value for parameter sigma: %f", sigma.GetFloat64())
   }
